@@ -21,13 +21,13 @@ PROP = 'C08'
 DBG = ['sighash', 'signing', 'segwit', 'taproot']
 
 
-def ref_run(script, stack, flags, sv, checker=None):
+def ref_run(script, stack, flags, sv, checker=None, allow_disabled=False):
     """-> ('refused',) | ('ok', final stack) | ('fail', code)"""
     if not in_domain(script):
         return ('refused',)
     if sv in (BASE, WITNESS_V0) and len(script) > MAX_SCRIPT_SIZE:
         return ('fail', 'SCRIPT_SIZE')
-    s = Session(script, stack, flags, sv, checker=checker)
+    s = Session(script, stack, flags, sv, checker=checker, allow_disabled=allow_disabled)
     while not s.done:
         r = s.step()
         if r[0] == 'fail':
